@@ -6,7 +6,7 @@ from hv.worlds import profile
 hprop.install(globals(), hprop.HistoryProperty(
     prop="C09",
     monitors=lambda: [C09Atomic()],
-    profile=profile(nv=(2, 6), n_requests=(4, 30), socs=[0.003, 0.05, 0.3, 0.8, 0.97, 0.995], n_scripted=[1, 2, 2, 3, 3], fleets=[0, 0, 2, 3]),
+    profile=profile(nv=(2, 6), n_requests=(4, 30), socs=[0.003, 0.05, 0.3, 0.8, 0.97, 0.995], n_scripted=[1, 2, 2, 3, 3], fleets=[0, 0, 1, 2, 3]),
     nontrivial=lambda f: "rejected_from_holder" in f and "accepted_probe" in f,
     rule=("stateful histories over generated worlds; part 1: in every reached state single instructions of all 9 types x vehicle classes x "
           "target classes (missing, remote, full, other fleet's, wrong plug) are applied with apply_instructions to the current state and the "
